@@ -167,7 +167,7 @@ where
     ) -> Result<()> {
         // check if the range is valid
         let leaves_len = leaves.len();
-        if start + leaves_len > self.capacity() {
+        if start > self.capacity() || leaves_len > self.capacity() - start {
             return Err(Report::msg("provided range exceeds set size"));
         }
         if leaves_len == 0 {
@@ -195,7 +195,7 @@ where
         if leaves_vec.is_empty() && indices.is_empty() {
             return Err(Report::msg("no leaves or indices to be removed"));
         }
-        if start + leaves_vec.len() > self.capacity() {
+        if start > self.capacity() || leaves_vec.len() > self.capacity() - start {
             return Err(Report::msg("provided leaves do not fit in the tree"));
         }
         if indices.iter().any(|&i| i >= self.capacity()) {
